@@ -232,6 +232,10 @@ func (g *genCtx) encodeParams(keys []Key, role Role) []Param {
 		for _, f := range n.fields {
 			o.Fields = append(o.Fields, conv(f, true))
 		}
+		for nested && g.r.P(0.2) {
+			// one more level of nesting (In -> In -> In -> field)
+			o = Param{Kind: PObj, Fields: []Param{o}, Embed: g.ft.EmbedObjs && g.r.P(0.3)}
+		}
 		return o
 	}
 	var out []Param
